@@ -6,7 +6,7 @@
    prefix of that order.  Paging through a static result with from/size returns every
    match exactly once."
    Statements only; proofs are in SigP.SchedProofs / SigP.SortCmdProofs. *)
-From Coq Require Import List Sorting.Sorted Sorting.Permutation.
+From Coq Require Import List ZArith Sorting.Sorted Sorting.Permutation.
 From SigM Require Import Base SortCmd Sched.
 From SigP Require Import BaseProofs SortCmdProofs SchedProofs.
 Import ListNotations.
@@ -166,6 +166,84 @@ Theorem C05_sort_tolerance_unordered_refuted : exists l,
   num_sorted_asc (sort_by (less_exact asc_num) l) = true.
 Proof. exact sort_tolerance_unordered_refuted. Qed.
 Print Assumptions C05_sort_tolerance_unordered_refuted.
+
+(* ---------- sort: integer-typed keys over the whole int64 / uint64 range ---------- *)
+(* An integer column value is (dtype, 64 bits of CVal): int_of_bits reads the bits as int64
+   (two's complement) or uint64; compareValues turns both dtypes into float64
+   (f64_of_int: round to 53 significant bits, nearest-even).  That conversion is monotone … *)
+Theorem C05_f64_of_int_monotone : forall a b : Z, (a <= b)%Z -> (f64_of_int a <= f64_of_int b)%Z.
+Proof. exact f64_of_int_mono. Qed.
+Print Assumptions C05_f64_of_int_monotone.
+
+(* … and exact up to 2^53 *)
+Theorem C05_f64_of_int_exact : forall n : Z, (Z.abs n <= 2 ^ 53)%Z -> f64_of_int n = n.
+Proof. exact f64_of_int_exact. Qed.
+Print Assumptions C05_f64_of_int_exact.
+
+(* so compareValues (op num / auto / "") never orders two integer-typed values — any mix of
+   signed and unsigned, any bit patterns, e.g. uint64 >= 2^63 against negative int64 — against
+   their exact integer order; EQUAL means that their float64 images coincide *)
+Theorem C05_int_keys_never_inverted : forall ua a ra ub b rb asc op, op <> OpStr ->
+  let x := int_of_bits ua a in
+  let y := int_of_bits ub b in
+  match compare_values tolerance (int_value ua a ra) (int_value ub b rb) asc op with
+  | LESS => if asc then (x < y)%Z else (y < x)%Z
+  | GREATER => if asc then (y < x)%Z else (x < y)%Z
+  | EQUAL => f64_of_int x = f64_of_int y
+  end.
+Proof. exact int_keys_compare. Qed.
+Print Assumptions C05_int_keys_never_inverted.
+
+(* FULL STATEMENT (fails, see the refutation below): EQUAL <-> the integers are equal.
+   Proved under the guard that both integers survive the float64 conversion (f64_exact:
+   every |n| <= 2^53 and every m * 2^k with |m| < 2^53) *)
+Theorem C05_int_keys_exact_guarded : forall ua a ra ub b rb asc op, op <> OpStr ->
+  f64_exact (int_of_bits ua a) = true -> f64_exact (int_of_bits ub b) = true ->
+  (compare_values tolerance (int_value ua a ra) (int_value ub b rb) asc op = EQUAL
+   <-> int_of_bits ua a = int_of_bits ub b).
+Proof. exact int_keys_compare_exact_guarded. Qed.
+Print Assumptions C05_int_keys_exact_guarded.
+
+Theorem C05_f64_exact_below_2p53 : forall n : Z, (Z.abs n <= 2 ^ 53)%Z -> f64_exact n = true.
+Proof. exact f64_exact_below_2p53. Qed.
+Print Assumptions C05_f64_exact_below_2p53.
+
+(* refuted without the guard: 2^53 + 1 ~ 2^53, uint64 2^63 + 1 ~ int64 2^63 - 1, and the
+   ascending sort of [2^53 + 1; 2^53] leaves 2^53 + 1 in front *)
+Theorem C05_int_keys_float64_collapse_refuted :
+  (exists ua a ub b, int_of_bits ua a <> int_of_bits ub b /\
+     compare_values tolerance (int_value ua a []) (int_value ub b []) true OpNum = EQUAL) /\
+  compare_values tolerance (int_value true 9223372036854775809 []) (int_value false 9223372036854775807 []) true OpAuto = EQUAL /\
+  sort_by (less_real asc_num) [[int_value false 9007199254740993 []]; [int_value false 9007199254740992 []]]
+  = [[int_value false 9007199254740993 []]; [int_value false 9007199254740992 []]].
+Proof. exact int_keys_float64_collapse_refuted. Qed.
+Print Assumptions C05_int_keys_float64_collapse_refuted.
+
+(* integer keys never fall under the 1e-4 tolerance: on records whose numeric sort keys are all
+   integer-typed (with strings and missing values, several keys) the streaming sort equals the
+   first `limit` of the sorted whole for ANY values and any batching *)
+Theorem C05_sort_topk_streaming_int_keys : forall eles limit batches,
+  Forall (Forall (Forall int_or_nonnum)) batches ->
+  Forall (Forall (fun r => length r = length eles)) batches ->
+  process (less_real eles) limit batches = firstn limit (sort_by (less_real eles) (concat batches)).
+Proof. exact sort_topk_streaming_int_keys. Qed.
+Print Assumptions C05_sort_topk_streaming_int_keys.
+
+(* one integer key, values that survive the conversion: limits take a prefix of the sorted whole
+   and no two result rows are out of exact integer order, ascending or descending *)
+Theorem C05_sort_int_key_exact_guarded : forall asc op limit (batches : list (list ikey)), op <> OpStr ->
+  Forall (Forall (fun k => f64_exact (ival k) = true)) batches ->
+  process (int_less asc op) limit batches = firstn limit (sort_by (int_less asc op) (concat batches)) /\
+  StronglySorted (int_ordered asc) (process (int_less asc op) limit batches).
+Proof. exact sort_int_key_exact_guarded. Qed.
+Print Assumptions C05_sort_int_key_exact_guarded.
+
+Example C05_int_guard_satisfiable :
+  forallb (fun k => f64_exact (ival k))
+    [(false, 5, []); (true, 7, []); (false, 18446744073709551613, []); (true, 9007199254740992, []);
+     (false, 9223372036854774784, []); (true, 9223372036854775808, []);
+     (true, 18446744073709549568, []); (false, 9223372036854775808, [])] = true.
+Proof. exact f64_exact_example. Qed.
 
 (* ---------- head, tail, paging ---------- *)
 Theorem C05_head_prefix : forall (A : Type) n (batches : list (list A)),
